@@ -303,7 +303,7 @@ static void expected_encoding(int arch, const Item& it, std::vector<uint8_t>& ou
 // Building the CodeHolder from a specification
 // ---------------------------------------------------------------------------------------------------------
 
-struct SecRT { Section* sec = nullptr; int spec = -1; int kind = K_EMPTY; std::vector<uint8_t> shadow; };
+struct SecRT { Section* sec = nullptr; int spec = -1; int kind = K_EMPTY; std::vector<uint8_t> shadow; uint64_t vsize_set = 0; };
 struct Site { uint32_t sec_id; size_t off; int len; bool is_call; uint64_t target; };
 
 struct Built {
@@ -322,8 +322,38 @@ static uint64_t resolve_target(const TableSpec& t, int idx, uint64_t base_hint) 
   return t.arch == A_X86 ? uint64_t(uint32_t(v)) : v;
 }
 
+// A previous life of the holder: an unrelated multi-section image is built and flattened, then the holder is recycled
+// (reinit, soft or hard reset). Nothing of it may show in the layout of the table that follows (the reference layout is
+// computed from the table alone).
+static uint64_t g_prelives[3];
+static bool g_recycled = false;
+static void prelife(const TableSpec& t, Built& B, const Environment& env, Rng& r) {
+  static const uint8_t zeros[64] = { 0 };
+  ck(B.code.init(env), "CodeHolder::init (previous life)");
+  BaseAssembler* as = t.arch == A_A64 ? static_cast<BaseAssembler*>(&B.aa) : static_cast<BaseAssembler*>(&B.xa);
+  ck(B.code.attach(as), "attach (previous life)");
+  ck(as->embed(zeros, 4 * (1 + r.below(16))), "embed (previous life)");
+  int ns = 1 + int(r.below(3));
+  for (int i = 0; i < ns; i++) {
+    char nm[16]; snprintf(nm, sizeof nm, ".old%d", i);
+    Section* sec = nullptr;
+    ck(B.code.new_section(Out(sec), nm, SIZE_MAX, SectionFlags::kNone, 1u << r.below(13), int32_t(r.below(3)) - 1), "new_section (previous life)");
+    ck(as->section(sec), "section (previous life)");
+    if (r.chance(3, 4)) ck(as->embed(zeros, 4 * (1 + r.below(16))), "embed (previous life)");
+    if (r.chance(1, 3)) sec->set_virtual_size(size_t(64) << r.below(8));
+  }
+  if (r.chance(1, 4)) B.code.text_section()->set_virtual_size(size_t(256) << r.below(6));
+  if (r.chance(1, 4)) (void)B.code.ensure_address_table_section();
+  ck(B.code.flatten(), "flatten (previous life)");
+  ck(B.code.detach(as), "detach (previous life)");
+  uint64_t how = r.below(3);
+  g_prelives[how]++;
+  if (how == 0) ck(B.code.reinit(), "reinit");
+  else B.code.reset(how == 1 ? ResetPolicy::kSoft : ResetPolicy::kHard);
+}
+
 static void build(const TableSpec& t, Built& B, const Environment& env, uint64_t base_hint) {
-  ck(B.code.init(env), "CodeHolder::init");
+  if (!B.code.is_initialized()) ck(B.code.init(env), "CodeHolder::init");
   if (t.arch == A_A64) ck(B.code.attach(&B.aa), "attach"); else ck(B.code.attach(&B.xa), "attach");
   BaseAssembler* as = t.arch == A_A64 ? static_cast<BaseAssembler*>(&B.aa) : static_cast<BaseAssembler*>(&B.xa);
   { SecRT r; r.sec = B.code.text_section(); r.spec = 0; r.kind = t.secs[0].kind; B.rt[0] = std::move(r); }
@@ -406,7 +436,7 @@ static void build(const TableSpec& t, Built& B, const Environment& env, uint64_t
         }
       }
     }
-    if (s.set_vsize) sec->set_virtual_size(s.vsize);
+    if (s.set_vsize) { sec->set_virtual_size(s.vsize); R.vsize_set = s.vsize; }
     if (sec->buffer_size() != R.shadow.size() || (R.shadow.size() && memcmp(sec->data(), R.shadow.data(), R.shadow.size()) != 0)) {
       char b[160]; snprintf(b, sizeof b, "section #%u (%s): buffer_size=%zu, driver emitted %zu bytes", sec->section_id(), kKindNames[s.kind], sec->buffer_size(), R.shadow.size());
       viol("section-buffer:content-ne-emitted-bytes", b);
@@ -417,6 +447,14 @@ static void build(const TableSpec& t, Built& B, const Environment& env, uint64_t
     if (B.rt.count(sec->section_id())) continue;
     if (sec != B.code.address_table_section()) harness_fail("unknown section appeared");
     SecRT r; r.sec = sec; r.spec = -1; r.kind = K_ADDRTAB; B.rt[sec->section_id()] = std::move(r);
+  }
+  // before flatten() a section has the virtual size it was given and no other (a recycled holder included)
+  for (auto& kv : B.rt) {
+    if (kv.second.kind == K_ADDRTAB) continue;
+    if (kv.second.sec->virtual_size() != kv.second.vsize_set) {
+      char b[200]; snprintf(b, sizeof b, "section #%u reports virtual_size()=%llu before flatten(), it was given %llu (holder %s)", kv.first, (ull)kv.second.sec->virtual_size(), (ull)kv.second.vsize_set, g_recycled ? "recycled" : "fresh");
+      viol(std::string("section:virtual-size-not-what-was-set:") + (g_recycled ? "recycled-holder" : "fresh-holder"), b);
+    }
   }
 }
 
@@ -792,6 +830,8 @@ static void note_evidence(const TableSpec& t, const std::vector<SI>& v, bool lai
 static void run_manual(const TableSpec& t, Rng& r) {
   Built B;
   Environment env(t.arch == A_X64 ? Arch::kX64 : t.arch == A_X86 ? Arch::kX86 : Arch::kAArch64);
+  g_recycled = false;
+  { Rng rp = r.fork(77); if (rp.chance(1, 3)) { prelife(t, B, env, rp); g_recycled = true; } }
   build(t, B, env, t.base);
   std::vector<SI> v = snapshot(B);
   set_desc(describe(t, v, false));
@@ -974,7 +1014,7 @@ int main(int argc, char** argv) {
   for (size_t i = 0; i < g_viol.size(); i++)
     printf("%s{\"key\":%s,\"what\":%s,\"table\":%llu,\"count\":%llu}", i ? "," : "", jstr(g_viol[i].key).c_str(), jstr(g_viol[i].what.substr(0, 1800)).c_str(), (ull)g_viol[i].table, (ull)g_viol[i].count);
   printf("],");
-  jnum("tables", C.tables); jnum("sections", C.sections); jnum("jit_tables", C.jit_tables);
+  jnum("tables", C.tables); jnum("recycled_reinit", g_prelives[0]); jnum("recycled_soft_reset", g_prelives[1]); jnum("recycled_hard_reset", g_prelives[2]); jnum("sections", C.sections); jnum("jit_tables", C.jit_tables);
   jnum("arch_x64", C.arch[0]); jnum("arch_x86", C.arch[1]); jnum("arch_a64", C.arch[2]);
   printf("\"kinds\":{");
   for (int k = 0; k < K_COUNT; k++) printf("%s\"%s\":%llu", k ? "," : "", kKindNames[k], (ull)C.kinds[k]);
